@@ -37,7 +37,7 @@ STUBS = ['caller input/output streams (SimReader/SimWriter)', 'user constructors
 EXC_KINDS = ['OSError', 'SimError', 'SimAbort', 'KeyboardInterrupt', 'MemoryError', 'IndexError', 'TypeError',
              'UnicodeDecodeError', 'UnicodeEncodeError', 'AttributeError', 'YAMLError', 'ReaderError', 'ValueError',
              'KeyError', 'EmitterError', 'ConstructorError', 'RepresenterError', 'AssertionError', 'ImportError',
-             'RecursionError', 'SystemExit']
+             'RecursionError', 'SystemExit', 'InterruptedError', 'BlockingIOError', 'LookupError', 'EOFError', 'BufferError']
 
 # a plain function that raises StopIteration is not touched by PEP 479: from a representer (never called inside a
 # generator frame of the library) it must pass through like any other exception
@@ -82,7 +82,8 @@ def make_exc(kind, tag):
     return {'KeyboardInterrupt': KeyboardInterrupt, 'MemoryError': MemoryError, 'IndexError': IndexError,
             'TypeError': TypeError, 'AttributeError': AttributeError, 'ValueError': ValueError, 'KeyError': KeyError,
             'AssertionError': AssertionError, 'ImportError': ImportError, 'RecursionError': RecursionError,
-            'SystemExit': SystemExit, 'StopIteration': StopIteration}[kind](tag)
+            'SystemExit': SystemExit, 'StopIteration': StopIteration, 'InterruptedError': InterruptedError,
+            'BlockingIOError': BlockingIOError, 'LookupError': LookupError, 'EOFError': EOFError, 'BufferError': BufferError}[kind](tag)
 
 
 def plan(tier):
@@ -138,7 +139,7 @@ def generate(seed, tier):
             v = ['list', [v, ['pt', rv.randint(0, 9), rv.randint(0, 9)]] + ([['pt', 1, 2]] if rv.random() < 0.5 else []), 9000 + len(vals)]
         vals.append(v)
     case = {'side': side, 'values': vals, 'custom': custom, 'points': None, 'salt': r.randrange(1 << 30),
-            'multi_callback': r.random() < 0.3, 'gen_callback': r.random() < 0.3}
+            'multi_callback': r.random() < 0.3, 'gen_callback': r.random() < 0.3, 'special': custom and r.random() < 0.4}
     if side == 'dump':
         api = r.choice(['dump', 'dump_all'] if custom else
                        ['dump', 'dump', 'dump_all', 'dump_all', 'safe_dump', 'serialize_all', 'serialize_all', 'emit', 'emit'])
@@ -167,6 +168,7 @@ def generate(seed, tier):
         if api in ('dump', 'safe_dump'):
             case['values'] = case['values'][:1]
             case['gen_docs'] = False
+        case['special'] = bool(case['special'] and case['custom'] and api in ('dump', 'dump_all') and not dumper.endswith('BaseDumper'))
         return case
     case['values'] = [values.hash_order_free(v) for v in case['values']]
     api = r.choice(['load', 'load_all', 'load_all'] if custom else
@@ -186,6 +188,7 @@ def generate(seed, tier):
     else:
         sched = {'sizes': [], 'then': None}
     case.update(api=api, loader=loader, form=form, sizes=sched['sizes'], then=sched['then'], min_piece=1)
+    case['special'] = bool(case['special'] and case['custom'] and not loader.endswith('BaseLoader'))
     return case
 
 
@@ -274,6 +277,34 @@ def make_world(yaml, case):
             L.add_constructor('!pt', con_pt)
         L.add_multi_constructor('!m/', mcon)
         world['Loader'] = L
+    # caller-owned special methods are failure points too: __hash__ of a key object a user constructor returned,
+    # __getstate__ / __setstate__ of a YAMLObject subclass
+    if case.get('special'):
+        class PKey:
+            def __init__(self, name):
+                self.name = name
+
+            def __hash__(self):
+                world['plan'].hit('cb')
+                return hash(self.name)
+
+            def __eq__(self, other):
+                return type(other) is type(self) and other.name == self.name
+
+        def getstate(self):
+            world['plan'].hit('cb')
+            return dict(self.__dict__)
+
+        def setstate(self, state):
+            world['plan'].hit('cb')
+            self.__dict__.update(state)
+        ns = {'yaml_tag': '!yobj', '__getstate__': getstate, '__setstate__': setstate,
+              'yaml_loader': world.get('Loader') or type('NoLoader', (yaml.SafeLoader,), {}),
+              'yaml_dumper': world.get('Dumper') or type('NoDumper', (yaml.SafeDumper,), {})}
+        world['YObj'] = type(yaml.YAMLObject)('YObj', (yaml.YAMLObject,), ns)
+        world['PKey'] = PKey
+        if 'Loader' in world:
+            world['Loader'].add_constructor('!pk', lambda loader, node: PKey(loader.construct_scalar(node)))
     return world
 
 
@@ -284,6 +315,10 @@ def c_needed(case):
 def prepare_payload(yaml, case, world):
     """Fault-free, pristine preparation of what the API under test receives."""
     vals = [values.build(v) for v in case.get('values', [])]
+    if case.get('special') and case['side'] == 'dump':
+        y = world['YObj'].__new__(world['YObj'])
+        y.__dict__.update({'a': 1, 'b': [2, 'three']})
+        vals = [[y, {'k': y}]] + vals if case['api'] == 'dump' else vals + [[y, {'k': y}]]
     if case['side'] == 'dump':
         if case['api'] in ('serialize_all', 'emit'):
             text = yaml.dump_all(vals, Dumper=type('PrepDumper', (yaml.SafeDumper,), {}) if not case['custom'] else prep_dumper(yaml))
@@ -296,6 +331,8 @@ def prepare_payload(yaml, case, world):
     text = yaml.dump_all(vals, Dumper=prep_dumper(yaml), explicit_start=True, allow_unicode=True)
     if case.get('custom'):
         text += '--- !m/seq [1, !m/x y, !m/map {a: !pt {x: 1, y: 2}}]\n'
+    if case.get('special'):
+        text += '--- [!yobj {a: 1, b: [2]}, {!pk k1: 1, !pk k2: [!yobj {c: 3}]}]\n'
     return text
 
 
